@@ -1408,6 +1408,225 @@ theorem wrapRec_lines_clean (w : Nat) (r : Seq × Seq) (hr : cleanRec r) (l : Se
     exact (h4 c (wrap_mem w _ _ l hl c hc)).1
 
 
+
+/-! ## FASTA: the parser against the independent specification, for every text -/
+
+/-- what one record contributes: nothing if it has no sequence, else its named pair; `none` if it
+    has a sequence but no accession token -/
+def named1 (r : Seq × Seq) : Option (List (Seq × Seq)) :=
+  if r.2.isEmpty then some [] else (firstToken r.1).map fun a => [(a, r.2)]
+
+theorem specNamed_cons (r : Seq × Seq) (rs : List (Seq × Seq)) :
+    specNamed (r :: rs) = (named1 r).bind fun a => (specNamed rs).map fun b => a ++ b := by
+  unfold specNamed named1
+  by_cases he : r.2.isEmpty = true
+  · simp [List.filter_cons, he]
+  · simp only [List.filter_cons, he, Bool.not_false, if_true, Bool.false_eq_true, if_false,
+      List.mapM_cons]
+    cases firstToken r.1 with
+    | none => simp
+    | some a =>
+      simp only [Option.map_some, Option.bind_some]
+      cases List.mapM (fun r => Option.map (fun a => (a, r.2)) (firstToken r.1))
+        (List.filter (fun r => !r.2.isEmpty) rs) <;> simp
+
+theorem flush_eq (tag : Seq) (gen : Bool) (T : List (Seq × Seq)) (id sq : Seq) :
+    flush tag gen ⟨T, id, sq⟩ =
+      (named1 (id, sq)).map fun a => T ++ a.filter fun r => keep tag gen r.1 := by
+  unfold flush named1
+  by_cases he : sq.isEmpty = true
+  · simp [he]
+  · simp only [he, Bool.false_eq_true, if_false]
+    cases firstToken id with
+    | none => simp
+    | some acc => by_cases hk : keep tag gen acc = true <;> simp [hk]
+
+/-- the step as a function of the trimmed line only -/
+def stepT (tag : Seq) (gen : Bool) (st : FState) (t : Seq) : Option FState :=
+  if isHeader t then (flush tag gen st).map fun T => ⟨T, t.drop 1, []⟩
+  else some { st with s := st.s ++ t }
+
+theorem step_eq_stepT (tag : Seq) (gen : Bool) (st : FState) (l : Seq) :
+    step tag gen st l = stepT tag gen st (trim l) := by
+  unfold stepT
+  by_cases hh : isHeader (trim l) = true
+  · rw [if_pos hh]
+    cases ht : trim l with
+    | nil => rw [ht] at hh; simp [isHeader] at hh
+    | cons c id =>
+      rw [ht] at hh
+      simp only [isHeader, List.head?_cons, beq_iff_eq, Option.some.injEq] at hh
+      subst hh
+      rw [step_header tag gen st l id ht]
+      rfl
+  · rw [if_neg hh]
+    have : (trim l).head? ≠ some 62 := by
+      intro e; apply hh; simp [isHeader, e]
+    exact step_body tag gen st l this
+
+def parseT (tag : Seq) (gen : Bool) : List Seq → FState → Option (List (Seq × Seq))
+  | [], st => flush tag gen st
+  | t :: ts, st =>
+    match stepT tag gen st t with
+    | none => none
+    | some st' => parseT tag gen ts st'
+
+theorem parseLines_eq_parseT (tag : Seq) (gen : Bool) (ls : List Seq) (st : FState) :
+    parseLines tag gen ls st = parseT tag gen (ls.map trim) st := by
+  induction ls generalizing st with
+  | nil => rfl
+  | cons l ls ih =>
+    simp only [parseLines, List.map_cons, parseT, step_eq_stepT]
+    cases stepT tag gen st (trim l) with
+    | none => rfl
+    | some st' => exact ih st'
+
+/-- the state machine computes the specification's records: the pending record (id, sequence so
+    far) is completed by the lines up to the next header, then come the records of the rest -/
+theorem parseT_eq (tag : Seq) (gen : Bool) (tl : List Seq) (T : List (Seq × Seq)) (id sq : Seq) :
+    parseT tag gen tl ⟨T, id, sq⟩ =
+      (specNamed ((id, sq ++ (tl.takeWhile fun x => !isHeader x).flatten) :: specRecs tl)).map
+        fun nm => T ++ nm.filter fun r => keep tag gen r.1 := by
+  induction tl generalizing T id sq with
+  | nil =>
+    simp only [parseT, List.takeWhile_nil, List.flatten_nil, List.append_nil, specRecs, specNamed_cons]
+    rw [flush_eq]
+    cases named1 (id, sq) <;> simp [specNamed]
+  | cons t rest ih =>
+    unfold parseT stepT
+    by_cases hh : isHeader t = true
+    · rw [if_pos hh, flush_eq]
+      simp only [List.takeWhile_cons, hh, Bool.not_true, Bool.false_eq_true, if_false, List.flatten_nil,
+        List.append_nil, specRecs, if_true]
+      rw [specNamed_cons]
+      cases named1 (id, sq) with
+      | none => simp
+      | some a =>
+        simp only [Option.map_some, Option.bind_some]
+        rw [ih]
+        simp only [List.nil_append]
+        cases specNamed ((List.drop 1 t, (List.takeWhile (fun x => !isHeader x) rest).flatten) :: specRecs rest) with
+        | none => simp
+        | some b => simp [List.filter_append, List.append_assoc]
+    · rw [if_neg hh]
+      simp only
+      rw [ih]
+      simp [List.takeWhile_cons, hh, specRecs, List.append_assoc]
+
+/-! blank lines do not matter to the specification; `lines` and `splitNL` agree up to blank lines -/
+
+theorem takeWhile_flatten_filter (p : Seq → Bool) (hp : p [] = true) (l : List Seq) :
+    ((l.filter fun x => !x.isEmpty).takeWhile p).flatten = (l.takeWhile p).flatten := by
+  induction l with
+  | nil => rfl
+  | cons x rest ih =>
+    by_cases hx : x.isEmpty = true
+    · have : x = [] := by simpa using hx
+      subst this
+      simp [List.filter_cons, List.takeWhile_cons, hp, ih]
+    · simp only [List.filter_cons, hx, Bool.not_false, if_true, List.takeWhile_cons]
+      by_cases hpx : p x = true
+      · simp [hpx, ih]
+      · simp [hpx]
+
+theorem specRecs_filter (l : List Seq) : specRecs (l.filter fun x => !x.isEmpty) = specRecs l := by
+  induction l with
+  | nil => rfl
+  | cons x rest ih =>
+    by_cases hx : x.isEmpty = true
+    · have : x = [] := by simpa using hx
+      subst this
+      simp [List.filter_cons, specRecs, isHeader, ih]
+    · simp only [List.filter_cons, hx, Bool.not_false, if_true, specRecs]
+      rw [ih, takeWhile_flatten_filter _ (by simp [isHeader])]
+
+theorem trim_append_ws (l : Seq) (w : UInt8) (hw : isWs w = true) : trim (l ++ [w]) = trim l := by
+  unfold trim
+  rw [List.dropWhile_append]
+  by_cases he : (l.dropWhile isWs).isEmpty = true
+  · have : l.dropWhile isWs = [] := by simpa using he
+    simp [he, this, List.dropWhile, hw, trimEnd]
+  · simp only [he, Bool.false_eq_true, if_false, trimEnd, List.reverse_append, List.reverse_cons,
+      List.reverse_nil, List.nil_append, List.singleton_append]
+    rw [List.dropWhile_cons_of_pos hw]
+
+theorem trim_stripCR (l : Seq) : trim (stripCR l) = trim l := by
+  unfold stripCR
+  by_cases h : l.getLast? = some 13
+  · rw [if_pos (by simpa using h)]
+    obtain ⟨l', rfl⟩ : ∃ l', l = l' ++ [13] := by
+      rcases List.eq_nil_or_concat l with rfl | ⟨l', a, rfl⟩
+      · simp at h
+      · refine ⟨l', ?_⟩
+        simp at h; simp [h]
+    rw [List.dropLast_concat, trim_append_ws l' 13 (by decide)]
+  · rw [if_neg (by simpa using h)]
+
+theorem splitNL_ne_nil (t : Seq) : splitNL t ≠ [] := by
+  cases t with
+  | nil => simp [splitNL]
+  | cons c t' =>
+    unfold splitNL
+    cases splitNL t' with
+    | nil => simp
+    | cons h r => by_cases hc : (c == 10) = true <;> simp [hc]
+
+/-- the first piece of `splitNL` with `cur` put in front -/
+def prependFirst (cur : Seq) : List Seq → List Seq
+  | [] => [cur]
+  | h :: r => (cur ++ h) :: r
+
+theorem lines_vs_splitNL (t cur : Seq) :
+    ((linesAux t cur).map trim).filter (fun x => !x.isEmpty) =
+      ((prependFirst cur (splitNL t)).map trim).filter fun x => !x.isEmpty := by
+  induction t generalizing cur with
+  | nil =>
+    simp only [linesAux, splitNL, prependFirst, List.append_nil]
+    by_cases hc : cur.isEmpty = true
+    · have : cur = [] := by simpa using hc
+      subst this
+      simp [trim_nil]
+    · simp [hc]
+  | cons c t' ih =>
+    unfold linesAux splitNL
+    cases hs : splitNL t' with
+    | nil => exact absurd hs (splitNL_ne_nil t')
+    | cons h r =>
+      by_cases hc : (c == 10) = true
+      · have := ih []
+        rw [hs] at this
+        simp only [hc, if_true, prependFirst, List.append_nil, List.map_cons, List.filter_cons,
+          List.nil_append] at this ⊢
+        rw [trim_stripCR, this]
+      · have := ih (cur ++ [c])
+        rw [hs] at this
+        simp only [hc, Bool.false_eq_true, if_false, prependFirst, List.append_assoc,
+          List.singleton_append] at this ⊢
+        exact this
+
+theorem specRecs_lines (text : Seq) :
+    specRecs ((lines text).map trim) = specRecs ((splitNL text).map trim) := by
+  rw [← specRecs_filter ((lines text).map trim), ← specRecs_filter ((splitNL text).map trim)]
+  have := lines_vs_splitNL text []
+  unfold lines
+  rw [this]
+  cases splitNL text <;> simp [prependFirst, trim_nil]
+
+
+/-- sequence text before the first header line (non-empty ⇒ `Fasta::parse` panics) -/
+def preHeader (tl : List Seq) : Seq := (tl.takeWhile fun x => !isHeader x).flatten
+
+theorem preHeader_lines (text : Seq) :
+    preHeader ((lines text).map trim) = preHeader ((splitNL text).map trim) := by
+  unfold preHeader
+  rw [← takeWhile_flatten_filter _ (by simp [isHeader]) ((lines text).map trim),
+    ← takeWhile_flatten_filter _ (by simp [isHeader]) ((splitNL text).map trim)]
+  have := lines_vs_splitNL text []
+  unfold lines
+  rw [this]
+  cases splitNL text <;> simp [prependFirst, trim_nil]
+
+
 /-! ## property theorems -/
 
 /-- **C05.digest_nodup** — for every parameter set and every protein, no peptide sequence is
@@ -1684,5 +1903,165 @@ theorem fasta_roundtrip_wrapped (tag : Seq) (gen : Bool) (w : Nat) (hw : 0 < w) 
 example : parse [114] true (renderLines ((([([80, 49], [65, 75, 65, 75, 65]), ([114, 80], [75, 75])].map
     (wrapRec 2)).flatMap LRec.lines).map fun l => (l, true))) = some [([80, 49], [65, 75, 65, 75, 65])] := by
   decide
+
+/-- **C05.parse_eq** — for EVERY text (no layout hypothesis): the parser's result, panics included,
+    is the specification's record list preceded by the pseudo-record "text before the first header". -/
+theorem parse_eq (tag : Seq) (gen : Bool) (text : Seq) :
+    parse tag gen text =
+      (specNamed (([], preHeader ((splitNL text).map trim)) :: specRecs ((splitNL text).map trim))).map
+        fun nm => nm.filter fun r => keep tag gen r.1 := by
+  unfold parse
+  rw [parseLines_eq_parseT, parseT_eq, ← specRecs_lines, ← preHeader_lines]
+  simp [preHeader]
+
+/-- **C05.parse_eq_spec** — for every text on which the parser does not panic, its result equals the
+    independent specification `specFasta` (records = maximal groups "header line, then non-header
+    lines" over the `\n`-pieces, trimmed; accession = first token; records without sequence dropped;
+    decoy rule) — the definition the driver evaluates on sage's output. -/
+theorem parse_eq_spec (tag : Seq) (gen : Bool) (text : Seq) (r : List (Seq × Seq))
+    (h : parse tag gen text = some r) : specFasta tag gen ((splitNL text).map trim) = some r := by
+  rw [parse_eq, specNamed_cons] at h
+  unfold specFasta
+  cases hp : named1 ([], preHeader ((splitNL text).map trim)) with
+  | none => rw [hp] at h; simp at h
+  | some a =>
+    have ha : a = [] := by
+      unfold named1 at hp
+      by_cases he : (preHeader ((splitNL text).map trim)).isEmpty = true
+      · simp [he] at hp; exact hp
+      · simp [he, firstToken] at hp
+    subst ha
+    rw [hp] at h
+    simpa using h
+
+/-- **C05.parse_eq_spec_total** — conversely, when there is no sequence text before the first
+    header, parser and specification agree completely (both fail exactly when some record with a
+    sequence has no accession token). -/
+theorem parse_eq_spec_total (tag : Seq) (gen : Bool) (text : Seq)
+    (h : preHeader ((splitNL text).map trim) = []) :
+    parse tag gen text = specFasta tag gen ((splitNL text).map trim) := by
+  rw [parse_eq, specNamed_cons, h]
+  unfold specFasta
+  simp only [named1, List.isEmpty_nil, if_true, Option.bind_some, List.nil_append]
+  cases specNamed (specRecs ((splitNL text).map trim)) <;> simp
+
+/-- **C05.fasta_meets_spec** — the Boolean check the driver applies to sage's records accepts the
+    model's records, for every text, tag and flag. -/
+theorem fasta_meets_spec (tag : Seq) (gen : Bool) (text : Seq) (r : List (Seq × Seq))
+    (h : parse tag gen text = some r) : fastaVerdict tag gen text r = "ok" := by
+  have := parse_eq_spec tag gen text r h
+  unfold specFasta at this
+  unfold fastaVerdict
+  cases hs : specNamed (specRecs ((splitNL text).map trim)) with
+  | none => rw [hs] at this; simp at this
+  | some all =>
+    rw [hs] at this
+    simp only [Option.map_some, Option.some.injEq] at this
+    simp [this]
+
+-- non-vacuity: a text outside every tidy layout (header glued to a CR, VT, '>' inside a line, record
+-- without sequence, tag inside the accession); parser and spec agree, and the check rejects a wrong list
+def exText : Seq :=
+  [62, 80, 49, 11, 120, 13, 10, 65, 62, 75, 13, 13, 10, 62, 81, 10, 62, 97, 114, 95, 98, 32, 100, 10, 32, 67, 67, 9, 10, 10, 75]
+example : parse [114, 95] false exText = some [([80, 49, 11, 120], [65, 62, 75]), ([97, 114, 95, 98], [67, 67, 75])] := by
+  decide
+example : specFasta [114, 95] true ((splitNL exText).map trim) = some [([80, 49, 11, 120], [65, 62, 75])] := by decide
+example : fastaVerdict [114, 95] true exText [([80, 49, 11, 120], [65, 62, 75]), ([97, 114, 95, 98], [67, 67, 75])]
+    = "bad:decoy_rule" := by decide
+-- text before the first header: the parser panics, so `parse_eq_spec` does not apply
+example : parse [] false [65, 10, 62, 80, 10, 75] = none := by decide
+
+
+/-! ### `Fasta::digest` -/
+
+theorem permB_refl (a : List FItem) : permB a a = true := by
+  simp [permB]
+
+theorem parse_keep (tag : Seq) (gen : Bool) (text : Seq) (r : List (Seq × Seq))
+    (h : parse tag gen text = some r) : ∀ p ∈ r, keep tag gen p.1 = true := by
+  have := parse_eq_spec tag gen text r h
+  unfold specFasta at this
+  cases hs : specNamed (specRecs ((splitNL text).map trim)) with
+  | none => rw [hs] at this; simp at this
+  | some all =>
+    rw [hs] at this
+    simp only [Option.map_some, Option.some.injEq] at this
+    intro p hp
+    rw [← this] at hp
+    exact (List.mem_filter.mp hp).2
+
+theorem fastaDigestOf_eq_want (tag : Seq) (gen : Bool) (par : Params) (r : List (Seq × Seq))
+    (hk : ∀ p ∈ r, keep tag gen p.1 = true) : fastaDigestOf tag gen par r = fdWant tag gen par r := by
+  unfold fastaDigestOf fdWant
+  apply List.flatMap_congr
+  intro p hp
+  have := hk p hp
+  simp only [keep, Bool.or_eq_true, Bool.not_eq_true'] at this
+  by_cases hc : containsSub p.1 tag = true
+  · have hg : gen = false := by
+      rcases this with h1 | h1
+      · rw [hc] at h1; cases h1
+      · exact h1
+    subst hg
+    simp [hc, List.filterMap_eq_map]
+  · have hc' : containsSub p.1 tag = false := by simpa using hc
+    simp [hc', List.filterMap_eq_map]
+
+/-- **C05.fastaDigest_meets_spec** — `Fasta::digest` as modelled (every parsed record digested once,
+    decoy-flagged by the tag rule) passes the check the driver applies to sage's per-pool outputs,
+    for every text, tag, flag, enzyme setting and number of pools: no record is left undigested, the
+    decoy flags follow the rule, and the result does not depend on the pool. -/
+theorem fastaDigest_meets_spec (tag : Seq) (gen : Bool) (par : Params) (text : Seq) (items : List FItem)
+    (k : Nat) (h : fastaDigest tag gen par text = some items) :
+    fdVerdict tag gen par text (List.replicate k items) = "ok" := by
+  unfold fastaDigest at h
+  cases hp : parse tag gen text with
+  | none => rw [hp] at h; simp at h
+  | some r =>
+    rw [hp] at h
+    simp only [Option.map_some, Option.some.injEq] at h
+    have hs := parse_eq_spec tag gen text r hp
+    have hw := fastaDigestOf_eq_want tag gen par r (parse_keep tag gen text r hp)
+    rw [hw] at h
+    unfold fdVerdict
+    rw [hs]
+    simp only
+    cases k with
+    | zero => rfl
+    | succ k =>
+      simp only [List.replicate_succ]
+      have h1 : ((List.replicate k items).any fun p => !permB p items) = false := by
+        rw [Bool.eq_false_iff]
+        intro hh
+        simp only [List.any_eq_true, Bool.not_eq_true'] at hh
+        obtain ⟨p, hp', hpp⟩ := hh
+        rw [List.eq_of_mem_replicate hp', permB_refl] at hpp
+        cases hpp
+      have h2 : (items.any fun it => it.decoy != (containsSub it.acc tag && !gen)) = false := by
+        rw [Bool.eq_false_iff]
+        intro hh
+        simp only [List.any_eq_true, bne_iff_ne, ne_eq] at hh
+        obtain ⟨it, hit, hne⟩ := hh
+        rw [← h] at hit
+        simp only [fdWant, List.mem_flatMap, List.mem_map] at hit
+        obtain ⟨p, _, d, _, rfl⟩ := hit
+        exact hne rfl
+      have h3 : ((fdWant tag gen par r).any fun it =>
+          decide (countItem items it.acc it.d.seq < countItem (fdWant tag gen par r) it.acc it.d.seq)) = false := by
+        rw [h]; simp
+      rw [h1, h2, h3, ← h, permB_refl]
+      simp
+
+-- non-vacuity: two records, one decoy-tagged, decoys not generated: four flagged items; a per-pool
+-- output that lost the last record is rejected
+def exFd : Seq := [62, 80, 49, 10, 65, 65, 75, 67, 67, 75, 10, 62, 114, 95, 80, 50, 10, 68, 68, 75, 69, 69, 10]
+def exPar : Params := ⟨0, 2, 50, some ⟨.cls [75], none, true, false⟩⟩
+example : (fastaDigest [114, 95] false exPar exFd).map (fun l => l.map fun it => (it.acc, it.d.seq, it.decoy)) =
+    some [([80, 49], [65, 65, 75], false), ([80, 49], [67, 67, 75], false),
+      ([114, 95, 80, 50], [68, 68, 75], true), ([114, 95, 80, 50], [69, 69], true)] := by decide
+example : fdVerdict [114, 95] false exPar exFd
+    [(fastaDigestOf [114, 95] false exPar [([80, 49], [65, 65, 75, 67, 67, 75])])] = "bad:record_not_digested" := by
+  decide
+
 
 end Sage.C05
